@@ -261,6 +261,13 @@ def check_early_stop(case, ctx):
     if delivered != k:
         raise Violation('early-stop:rows-delivered', {'delivered': delivered, 'expected': k, 'program': prog})
     bound = k + BOUND
+    idx = next((i for i, s_ in enumerate(case['steps']) if s_['k'] == 'rows_fn' and s_.get('fn') == 'head'), None)
+    if idx is not None and any(s_['k'] in ('dump_to_path', 'dump_to_zip', 'stream_file', 'checkpoint') for s_ in case['steps'][:idx]):
+        # a dump / stream file in front of the early-stopping step holds the WHOLE resource (C05): it reads on by itself
+        if pulled[0] != n:
+            raise Violation('early-stop:observer-before-it-did-not-see-the-whole-resource', {'pulled': pulled[0], 'n': n, 'program': prog})
+        return Info(nontrivial=True, classes=['early-stop:behind-a-persisting-observer', 'source:' + case['source_form']],
+                    extra={'rows_streamed': pulled[0]})
     if pulled[0] > bound:
         raise Violation('early-stop:source-read-far-beyond-the-last-row-asked-for',
                         {'pulled': pulled[0], 'asked_for': k, 'bound': bound, 'how': case['early_stop'], 'program': prog})
